@@ -1,5 +1,6 @@
 import SwcVerif.Proofs.Dsu
 import SwcVerif.Proofs.DsuForest
+import SwcVerif.Proofs.DsuConn
 /-! # C18 — topology diagnosis and root repair tell the truth about any parent table
 
 Theorems about the models in `Model/Dsu.lean` (tied to the code by the `c18.dsu`, `c18.checkers`
@@ -552,6 +553,63 @@ theorem getDsu_forest (pids : List Int) (dp : Nat → Nat)
 example : getDsu ((List.range 5).map Int.ofNat) [2, -1, 1, -1, 3] = some [1, 1, 1, 3, 3] := by decide +kernel
 example : (List.range 5).map (Forest.rootFn (ptr [2, -1, 1, -1, 3]) (fun k => [2, 0, 1, 0, 1].getD k 0)) = [1, 1, 1, 3, 3] := by
   decide +kernel
+
+/-- the initial pointer array of `get_dsu` tabulates `ptr` -/
+theorem dsuInit_tab (pids : List Int)
+    (hv : ∀ k (h : k < pids.length), pids[k] = -1 ∨ (0 ≤ pids[k] ∧ pids[k] < pids.length)) :
+    ∃ l0, dsuInit ((List.range pids.length).map Int.ofNat) pids = some l0 ∧ Tab l0 pids.length (ptr pids) := by
+  refine ⟨(List.zip ((List.range pids.length).map Int.ofNat) pids).map (fun ip => (if ip.2 = -1 then ip.1 else ip.2).toNat), ?_, ?_⟩
+  · unfold dsuInit
+    apply mapM_option_eq_some
+    intro ip hip
+    obtain ⟨k, hk, e⟩ := List.getElem_of_mem hip
+    have hk' : k < pids.length := by simp at hk; exact hk
+    simp only [List.getElem_zip, List.getElem_map, List.getElem_range] at e
+    subst e
+    simp only []
+    by_cases hroot : pids[k] = -1
+    · rw [if_pos hroot]
+      exact idxOf?_range _ k hk'
+    · rw [if_neg hroot]
+      rcases hv k hk' with e | ⟨h0, h1⟩
+      · exact absurd e hroot
+      · have := idxOf?_range pids.length pids[k].toNat (by omega)
+        rw [Int.toNat_of_nonneg h0] at this
+        exact this
+  · refine ⟨by simp, ?_⟩
+    intro j hj
+    unfold ptr
+    simp only [List.getD_eq_getElem?_getD]
+    rw [List.getElem?_eq_getElem (by simpa using hj), List.getElem?_eq_getElem hj]
+    simp only [List.getElem_map, List.getElem_zip, List.getElem_range, Option.getD_some]
+    split <;> rfl
+
+/-- **any table, cycles included — partial correctness of `get_dsu` / `is_single_root`**: whenever the pointer-jumping
+loop returns, two rows carry the same label exactly when they are weakly connected in the table (by parent links in
+either direction); in particular all labels are equal exactly when the whole table is connected.  (That the loop
+returns within the modelled pass budget is `getDsu_forest` for every forest; for tables with cycles it is observed —
+exhaustively for n ≤ 5 and on random functional graphs — not proved.) -/
+theorem getDsu_labels_are_components (pids : List Int)
+    (hv : ∀ k (h : k < pids.length), pids[k] = -1 ∨ (0 ≤ pids[k] ∧ pids[k] < pids.length))
+    (l : List Nat) (h : getDsu ((List.range pids.length).map Int.ofNat) pids = some l) :
+    l.length = pids.length ∧
+    ∀ a b, a < pids.length → b < pids.length → (l.getD a 0 = l.getD b 0 ↔ WConn pids.length (ptr pids) a b) := by
+  obtain ⟨l0, hinit, htab0⟩ := dsuInit_tab pids hv
+  have hcl : ∀ i, i < pids.length → ptr pids i < pids.length := by
+    intro i hi
+    unfold ptr
+    have hget : pids.getD i (-1) = pids[i] := by simp [List.getD_eq_getElem?_getD, hi]
+    rw [hget]
+    rcases hv i hi with e | ⟨h0, h1⟩
+    · rw [if_pos e]; exact hi
+    · rw [if_neg (by omega)]; omega
+  unfold getDsu at h
+  rw [hinit] at h
+  simp only [List.length_map, List.length_range, Option.bind_some] at h
+  exact jumpLoop_conn pids.length (ptr pids) _ l0 l (ptr pids) htab0 hcl (fun _ _ => Iff.rfl) h
+
+-- non-vacuity: a table with a cycle (0 → 1 → 2 → 0, 3 hanging off it) and a separate root 4
+example : getDsu ((List.range 5).map Int.ofNat) [1, 2, 0, 1, -1] = some [2, 2, 2, 2, 4] := by decide +kernel
 
 /-- … so on a forest all labels are equal exactly when there is a single root -/
 theorem forest_single_label_iff (n : Nat) (f dp : Nat → Nat) (hF : Forest n f dp) :
